@@ -61,18 +61,39 @@ def _run_cont(m, cont):
     return None
 
 
-def judge(mab, cf, method, conts, acc=None, key=None):
+def observe_inplace(m, qs):
+    """predict and predict_expectations on the object itself, in a fixed order (no copies involved)."""
+    out = []
+    for q in qs:
+        out.append(ops.call(m, "predict", q))
+        out.append(ops.call(m, "predict_expectations", q))
+    out.append(ops.norm(list(m.arms)))
+    return out
+
+
+def original(cfg, hist):
+    """The original object: built by replaying its history through the public API, never copied."""
+    return ops.run_history(cfg, hist)
+
+
+def judge(cfg, hist, cf, method, conts, acc=None, key=None, expected=None):
+    """expected: per continuation, the outputs of the never-copied original (computed once per state)."""
     msgs = []
-    try:
-        cp = make_copy(mab, method)
-    except Exception as e:                                    # noqa: BLE001
-        return [([], "%s of the bandit raised %s: %s" % (method, type(e).__name__, str(e)[:100]))]
     qs = _queries(cf)
-    for cont in conts:
-        o2, c2 = copy.deepcopy(mab), make_copy(cp, method)
-        ea, eb = _run_cont(o2, cont), _run_cont(c2, cont)
-        oa = ea or ops.observe(o2, qs)
-        ob = eb or ops.observe(c2, qs)
+    source = original(cfg, hist)
+    for ci, cont in enumerate(conts):
+        try:
+            cp = make_copy(source, method)
+        except Exception as e:                                # noqa: BLE001
+            return [([], "%s of the bandit raised %s: %s" % (method, type(e).__name__, str(e)[:100]))]
+        eb = _run_cont(cp, cont)
+        ob = eb or observe_inplace(cp, qs)
+        if expected is not None:
+            oa = expected[ci]
+        else:
+            o = original(cfg, hist)
+            ea = _run_cont(o, cont)
+            oa = ea or observe_inplace(o, qs)
         if acc is not None:
             acc.traces += 1
             acc.case((key, method, str(cont)) if key is not None else None)
@@ -80,18 +101,12 @@ def judge(mab, cf, method, conts, acc=None, key=None):
         if not ops.same(oa, ob):
             msgs.append((cont, "%s copy differs after continuation %r: original %r, copy %r" % (
                 method, [o[0] for o in cont], oa, ob)))
-    # isolation: train and query the copy itself, the original must not move
-    before = ops.observe(mab, qs)
-    for cont in conts[1:4]:
-        _run_cont(cp, cont)
-        ops.observe(cp, qs)
-    try:
-        cp.predict(*(() if cf else ([[1, 1]],)))
-    except Exception:                                         # noqa: BLE001
-        pass
-    after = ops.observe(mab, qs)
-    if not ops.same(before, after):
-        msgs.append(([], "using the %s copy changed the original: before %r, after %r" % (method, before, after)))
+    # isolation: the copies above were trained and queried; the object they were taken from must not have moved
+    fresh = original(cfg, hist)
+    a, b = observe_inplace(source, qs), observe_inplace(fresh, qs)
+    if not ops.same(a, b):
+        msgs.append(([], "using %s copies changed the object they were taken from: %r, an untouched original gives %r" % (
+            method, a, b)))
     return msgs
 
 
@@ -107,27 +122,27 @@ def run_shard(shard):
             return
         conts = list(S.continuations(mab, cf, labels, removed, shard["cdepth"]))
         key = ("%s/%s/%s/%s" % (ln, nn, labels, "|".join(map(str, hist)))) if len(hist) >= 2 else None
+        qs = _queries(cf)
+        expected = []
+        for cont in conts:
+            o = original(cfg, hist)
+            e = _run_cont(o, cont)
+            expected.append(e or observe_inplace(o, qs))
         for method in (METHODS if shard["cdepth"] > 1 else QUICK_METHODS):
-            for cont, msg in judge(mab, cf, method, conts, acc, key):
+            for cont, msg in judge(cfg, hist, cf, method, conts, acc, key, expected):
                 acc.violation("%s/%s %s cont=%s" % (ln, nn, method, "+".join(o[0] for o in cont)),
                               {"cfg": cfg, "history": hist, "method": method, "cont": cont}, msg)
         if len(hist) == 2:
             acc.sample({"cfg": cfg, "history": hist, "methods": METHODS, "continuations": len(conts)})
-        # fresh-interpreter job
+        # fresh-interpreter job: protocol-4 pickle of the never-copied original
         try:
-            blob = pickle.dumps(mab, protocol=4)
+            blob = pickle.dumps(original(cfg, hist), protocol=4)
         except Exception:                                     # noqa: BLE001
             return                                            # already reported above
-        qs = _queries(cf)
-        expected = []
-        for cont in conts:
-            m = copy.deepcopy(mab)
-            e = _run_cont(m, cont)
-            expected.append(e or ops.observe(m, qs))
         jobs.append((blob, conts, qs))
         job_meta.append((hist, conts, expected))
 
-    S.explore(cfg, labels, shard["depth"], acc, visit)
+    S.explore(cfg, labels, shard["depth"], acc, visit, query=True)      # states reached through predictions too
 
     if jobs:
         tmp = tempfile.mkdtemp(prefix="c19_")
@@ -164,15 +179,13 @@ def run_shard(shard):
 def replay(w):
     cfg = w["cfg"]
     cf = ops.is_context_free(cfg)
-    mab = ops.build(cfg)
-    for op in w["history"]:
-        ops.apply(mab, op)
+    hist = w["history"]
+    qs = _queries(cf)
     if w["method"] == "child":
         tmp = tempfile.mkdtemp(prefix="c19_")
         try:
             jp, op_ = os.path.join(tmp, "jobs.pkl"), os.path.join(tmp, "out.pkl")
-            qs = _queries(cf)
-            pickle.dump([(pickle.dumps(mab, protocol=4), [w["cont"]], qs)], open(jp, "wb"))
+            pickle.dump([(pickle.dumps(original(cfg, hist), protocol=4), [w["cont"]], qs)], open(jp, "wb"))
             subprocess.run([sys.executable, "-m", "mcx.child", jp, op_], cwd=env.VERIF,
                            env=dict(os.environ, PYTHONHASHSEED="1"), capture_output=True)
             got = pickle.load(open(op_, "rb"))[0]
@@ -180,10 +193,10 @@ def replay(w):
             for f in os.listdir(tmp):
                 os.unlink(os.path.join(tmp, f))
             os.rmdir(tmp)
-        m = copy.deepcopy(mab)
-        e = _run_cont(m, w["cont"])
-        want = e or ops.observe(m, qs)
+        o = original(cfg, hist)
+        e = _run_cont(o, w["cont"])
+        want = e or observe_inplace(o, qs)
         if isinstance(got, dict) or not ops.same(want, got[0]):
             return ["fresh-interpreter restore differs: original %r, restored %r" % (want, got)]
         return []
-    return [m for _c, m in judge(mab, cf, w["method"], [w["cont"]])]
+    return [m for _c, m in judge(cfg, hist, cf, w["method"], [w["cont"]])]
